@@ -22,6 +22,7 @@ from fractions import Fraction
 from . import tlc
 from .tlc import MachineryError, tla_value
 
+SEED = 0  # set by the check: the real code's shuffles are seeded per history from it
 NONINT = 2000000001  # stands for "not a small integer" in traces (TLC has 32-bit integers only)
 
 
@@ -289,7 +290,8 @@ def _flat_to_struct(flat, cols: list) -> list:
         nobs = max(obs) if obs else 0
         out.append(dict(id=_num(ident), common=[[c, common[c]] for c in cols if c in common],
                         obs=[[[c, obs.get(o, {}).get(c, NONINT)] for c in cols if c in obs.get(o, {})] for o in range(1, nobs + 1)]))
-    return out
+    # a mapping individual -> line: the order of the lines is not part of the comparison
+    return sorted(out, key=lambda l: l['id'])
 
 
 def _norm_flat(spec_flat) -> list:
@@ -383,9 +385,11 @@ def _first_diff_clause(op: str, want: dict, got: dict, panel_rows_note: bool = F
 def replay(hist: dict) -> dict:
     """spec -> code: apply a generated history to a real Database, compare after every step with
     the spec's expectations; log what the real code did (the trace for DatabaseTrace)."""
+    import numpy as np
     import pandas as pd
     from biogeme.database import Database
 
+    np.random.seed((SEED * 31 + hist['tid'] * 7919 + len(hist['steps']) * 104729 + len(json.dumps(hist['steps'][-1:]))) % (2**32))
     init = hist['init']
     cols = init['cols']
     df = pd.DataFrame([r[1:] for r in init['rows']], columns=cols, index=[r[0] for r in init['rows']])
@@ -429,6 +433,14 @@ def replay(hist: dict) -> dict:
                     want = ret = 0
                 if want != ret:
                     clause = f"{step['op']}:return"
+                    if step['op'] == 'flatten':
+                        ids = [l['id'] for l in ret] != [l['id'] for l in want]
+                        com = [l['common'] for l in ret] != [l['common'] for l in want]
+                        clause = 'flatten:' + ('individuals' if ids else 'common-columns' if com else 'observations')
+                    elif step['op'] == 'extract':
+                        clause = 'extract:rows'
+                    elif step['op'] in ('count', 'sizes'):
+                        clause = f"{step['op']}:value"
         if clause:
             mismatch = dict(step=k + 1, op=step['op'], args=step['a'], clause=clause, features=feats, before=before,
                             want=dict(err=e['err'], state=want_state, ret=e['ret'] if e['det'] else 'any allowed outcome'),
@@ -475,7 +487,7 @@ def validate(traces: list, *, shards: int = 8, timeout: int = 1200):
         def run(k):
             path = os.path.join(work, f'traces{k}.json')
             with open(path, 'w') as f:
-                json.dump([dict(tid=t['tid'], init=t['init'], events=t['events']) for t in parts[k]], f)
+                json.dump([dict(tid=t['tid'], init=t['init'], events=t.get('vevents', t['events'])) for t in parts[k]], f)
             cfg = TRACE_CFG
             return tlc.run('DatabaseTrace', cfg, workers=1, env={'TRACE_FILE': path}, timeout=timeout, heap='3g')
 
